@@ -7,14 +7,22 @@
    rendering as an int, so equal ids <=> equal renderings).
      [op |-> "new",  pool |-> <<ids>>]            the pool was (re)built
      [op |-> "call", fn |-> name, args |-> <<pool positions>>,
-                     post |-> <<ids of every pool value after the call>>]
+                     post |-> <<ids of every pool value after the call>>,
+                     is |-> <<pool positions>>, holds |-> <<pool positions>>]
+                     (the containers among the arguments that the returned
+                     value IS / HOLDS below its top level: identity of the
+                     implementation's objects, so a later change of one
+                     would show in the other)
    State: `cur`, the model's idea of what every pool value renders to.  The
    model steps through the trace: a call may change only what the property
    statement allows (HeapOps!MayChange: the FIRST argument of a documented
    mutator, nothing otherwise), and everything else - the other arguments and
    every pool value that was not passed at all - must be what it was.  A call
    that changed more is reported (@@BAD@@) and the model re-synchronises on
-   the logged content so the rest of the trace is still checked.  Whether the
+   the logged content so the rest of the trace is still checked.  The returned
+   value must be independent of the arguments (HeapOps!ResultIndependent:
+   only a mutator returns its target, only selectors return an argument, only
+   constructors hold one).  Whether the
    call returned, raised a runtime error or a host exception is not looked at
    (that is C13). *)
 EXTENDS HeapOps, TLC, Json, IOUtils
@@ -39,6 +47,8 @@ Step ==
             /\ Check(OnlyChanged(cur, Ev.post, MayChange(Ev.fn, Ev.args)),
                      IF Ev.fn \in MutatorFns THEN "mutator-changed-more-than-its-target"
                      ELSE "non-mutator-changed-a-value")
+            /\ Check(ResultIndependent(Ev.fn, Ev.args, Range(Ev.is), Range(Ev.holds)),
+                     "result-not-independent-of-its-argument")
        [] OTHER -> cur' = cur /\ Bad("unknown-op")
   /\ (l = Len(Trace) => PrintT("@@DONE@@" \o ToJson([n |-> l])))
 
